@@ -13,6 +13,7 @@ use serde_json::json;
 pub fn gens() -> Vec<Gen> {
     vec![
         Gen { name: "c01.catalog", prop: "C01", tags: &["c01", "roundtrip", "view"], cases: cases_catalog, check },
+        Gen { name: "c01.long_arrays", prop: "C01", tags: &["long", "array", "depth", "many", "elements"], cases: cases_long_arrays, check },
         Gen { name: "c01.enum", prop: "C01", tags: &["enum"], cases: cases_enum, check },
         Gen { name: "c01.random", prop: "C01", tags: &["random"], cases: cases_random, check },
         Gen { name: "c01.f64_bits", prop: "C01", tags: &["f64", "float"], cases: cases_f64, check: check_f64 },
@@ -30,6 +31,7 @@ pub fn emit_for_tree(
 ) -> bool {
     for strategy in strategies_for(claims, rng, exhaustive_upto, n_random) {
         let hidden = hidden_paths(claims, &strategy);
+        let mut prev_sel: Option<serde_json::Map<String, J>> = None;
         for chosen in choices(&hidden, rng, n_random) {
             *counter += 1;
             let style = match *counter % 5 {
@@ -40,6 +42,15 @@ pub fn emit_for_tree(
             let sel = build_selection(claims, &strategy, &chosen, style, rng);
             let cfg = Cfg::simple(claims.clone(), strategy.clone()).variant(*counter);
             let mut case = cfg.to_json();
+            // every third case: a second presentation from the SAME holder instance, with the
+            // previous case's selection when it is for the same strategy, else the same selection again
+            if *counter % 3 == 0 {
+                case["again"] = match &prev_sel {
+                    Some(p) => J::Object(p.clone()),
+                    None => J::Object(sel.clone()),
+                };
+            }
+            prev_sel = Some(sel.clone());
             case["selection"] = J::Object(sel);
             if !sink(case) {
                 return false;
@@ -63,6 +74,7 @@ fn cases_catalog(rng: &mut Rng, sink: &mut dyn FnMut(J) -> bool) {
                 counter += 1;
                 let sel = build_selection(&claims, &strategy, &chosen, SelStyle::Sparse, rng);
                 let mut case = Cfg::simple(claims.clone(), strategy.clone()).variant(counter).to_json();
+                case["again"] = J::Object(sel.clone());
                 case["selection"] = J::Object(sel);
                 if !sink(case) {
                     return;
@@ -110,11 +122,45 @@ pub fn check(case: &J) -> Verdict {
     if !cfg.strategy.well_formed() {
         return Verdict::Trivial;
     }
-    let (_issued, presentation) = match honest_presentation(&cfg, selection) {
+    let _ = honest_presentation;
+    let (issued, _parts) = match cfg.issue_parts() {
         Ok(x) => x,
         Err(v) => return v,
     };
+    let mut holder = match sut::holder_new(&issued, &cfg.format) {
+        Out::Ok(h) => h,
+        o => return fail(format!("SDJWTHolder::new on an issued SD-JWT -> {}", o.brief()), "Ok"),
+    };
     let kb = cfg.kb();
+    let presentation = match sut::present(&mut holder, selection, kb.as_ref()) {
+        Out::Ok(p) => p,
+        o => return fail(format!("create_presentation({}) -> {}", short(&jstr(&J::Object(selection.clone())), 200), o.brief()), "Ok(presentation)"),
+    };
+    // a holder makes "one or more presentations": the same instance presents again
+    if let Some(again) = case.get("again").and_then(|s| s.as_object()) {
+        let second = match sut::present(&mut holder, again, kb.as_ref()) {
+            Out::Ok(p) => p,
+            o => {
+                return fail(
+                    format!("second create_presentation({}) on the same {} holder -> {}", short(&jstr(&J::Object(again.clone())), 200), cfg.format, o.brief()),
+                    "Ok(presentation) that verifies to its selected view",
+                )
+            }
+        };
+        let mut expected2 = view(&cfg.claims, &cfg.strategy, &J::Object(again.clone()));
+        if let Some(h) = &cfg.holder {
+            expected2["cnf"] = json!({"jwk": keys::holder_jwk_json(h)});
+        }
+        match sut::verify(&second, &cfg.alg, kb.as_ref(), &cfg.format) {
+            Out::Ok(v) if v == expected2 => {}
+            o => {
+                return fail(
+                    format!("second presentation of the same holder (selection {}) verifies to {}", short(&jstr(&J::Object(again.clone())), 200), o.show()),
+                    format!("Ok({})", short(&jstr(&expected2), 500)),
+                )
+            }
+        }
+    }
     let mut expected = view(&cfg.claims, &cfg.strategy, &J::Object(selection.clone()));
     if let Some(h) = &cfg.holder {
         expected["cnf"] = json!({"jwk": keys::holder_jwk_json(h)});
@@ -182,4 +228,45 @@ fn check_f64(case: &J) -> Verdict {
     let mut c = case.clone();
     c["claims"] = expand_f64(&case["claims"]);
     check(&c)
+}
+
+/// Many revealed selectively-disclosable array elements in one presentation.
+fn cases_long_arrays(_rng: &mut Rng, sink: &mut dyn FnMut(J) -> bool) {
+    let arr = |n: usize, tag: &str| -> J { J::Array((0..n).map(|i| json!(format!("{tag}{i}"))).collect()) };
+    let mut trees: Vec<J> = Vec::new();
+    for n in [15usize, 16, 17, 18, 32, 40, 100] {
+        trees.push(json!({"iss": "i", "exp": crate::util::FAR_EXP, "long": arr(n, "e")}));
+    }
+    // several short arrays (5..8 elements) followed by an object with hidden members
+    trees.push(json!({"iss": "i", "exp": crate::util::FAR_EXP, "a": arr(5, "a"), "b": arr(6, "b"), "c": arr(7, "c"), "d": arr(8, "d"), "o": {"x": 1, "y": {"z": 2}}}));
+    trees.push(json!({"iss": "i", "exp": crate::util::FAR_EXP, "rows": [arr(6, "r"), arr(6, "s"), arr(6, "t")], "o": {"x": 1}}));
+    trees.push(json!({"iss": "i", "exp": crate::util::FAR_EXP, "objs": (0..20).map(|i| json!({"k": i, "l": [i]})).collect::<Vec<_>>(), "tail": {"t": [1, 2]}}));
+    trees.push(json!({"iss": "i", "exp": crate::util::FAR_EXP, "m": (0..6).map(|i| J::Array((0..6).map(|j| json!(i * 10 + j)).collect())).collect::<Vec<_>>()}));
+    let mut n = 0usize;
+    for t in &trees {
+        let all_paths = crate::oracle::all_paths(t);
+        let elem_paths: Vec<String> = all_paths
+            .iter()
+            .filter(|p| matches!(p.last(), Some(crate::oracle::Seg::Idx(_))))
+            .enumerate()
+            .map(|(i, p)| crate::oracle::path_spelling(p, i % 2 == 1))
+            .collect();
+        for strategy in [Strategy::AllLevels, Strategy::Custom(elem_paths.clone()), Strategy::TopLevel] {
+            let hidden = hidden_paths(t, &strategy);
+            let all: std::collections::HashSet<_> = hidden.iter().cloned().collect();
+            let half: std::collections::HashSet<_> = hidden.iter().step_by(2).cloned().collect();
+            for chosen in [all, half] {
+                for style in [SelStyle::FullShape, SelStyle::Sparse] {
+                    n += 1;
+                    let mut r = Rng::new(n as u64);
+                    let sel = build_selection(t, &strategy, &chosen, style, &mut r);
+                    let mut case = Cfg::simple(t.clone(), strategy.clone()).variant(n).to_json();
+                    case["selection"] = J::Object(sel);
+                    if !sink(case) {
+                        return;
+                    }
+                }
+            }
+        }
+    }
 }
